@@ -2,17 +2,23 @@ package harness
 
 import (
 	"bytes"
+	"context"
+	"errors"
 	"fmt"
+	"reflect"
 	"sort"
 	"strconv"
 	"strings"
 	"testing"
 	"time"
+	"unsafe"
 
 	coreheader "cosmossdk.io/core/header"
 	"cosmossdk.io/math"
 	"github.com/cosmos/cosmos-sdk/crypto/keys/ed25519"
 	sdk "github.com/cosmos/cosmos-sdk/types"
+	authtypes "github.com/cosmos/cosmos-sdk/x/auth/types"
+	govtypes "github.com/cosmos/cosmos-sdk/x/gov/types"
 	stakingtypes "github.com/cosmos/cosmos-sdk/x/staking/types"
 	epochstypes "github.com/osmosis-labs/osmosis/v15/x/epochs/types"
 
@@ -39,7 +45,10 @@ const (
 	c16Reward  = "urew"
 )
 
-var c16RollappIDs = []string{"rollappa_1234-1", "rollappb_1235-1"}
+// r0, r1 exist in the base state; r2 is created mid-trace by a real MsgCreateRollapp (`addrollapp r2`)
+var c16RollappIDs = []string{"rollappa_1234-1", "rollappb_1235-1", "rollappc_1236-1"}
+
+const c16NBase = 2
 
 type c16Val struct {
 	op   sdk.AccAddress
@@ -63,7 +72,8 @@ type c16 struct {
 	actors  []sdk.AccAddress
 	vals    []c16Val
 	creator sdk.AccAddress
-	raGauge []uint64
+	baseRa  []uint64 // rollapp gauges of the base rollapps r0, r1
+	raGauge []uint64 // per trace: rollapp gauge of every DECLARED rollapp (hdr rollapp / addrollapp), by index
 	baseG   []uint64 // perpetual asset gauges of the base state: ids below / between the rollapp gauges
 	qs      sponskeeper.QueryServer
 
@@ -97,6 +107,14 @@ type c16 struct {
 	claimBy    map[int]int         // actor -> number of claims in the current distribution epoch
 	votedIn    map[int]bool        // actor voted in the current distribution epoch
 	rep        map[uint64]bool     // gauge had a repeated claimer in this epoch
+	minAt      map[int]math.Int    // actor -> MinVotingPower in force when its vote last changed
+	lastVote   map[int]string      // actor -> rendering of its vote after the previous op
+	overpaid   bool                // some endorsement gauge has paid more than an epoch's allotment (F7) in this trace
+	solvBad    string              // current deficit of the x/incentives module account (per denom), "" = solvent
+	hookLog    []c16HookCall       // staking hooks observed during the current op (recording wrapper)
+	recording  bool
+	finishedAt map[uint64]int64 // endorsement gauge -> distribution epoch at whose start it was found finished
+	stale      bool             // a finished gauge paid its stale EpochRewards in a later epoch in this trace
 }
 
 func c16Int(s string) math.Int {
@@ -156,33 +174,21 @@ func newC16(t *testing.T, r *Run) *c16 {
 	// BEFORE each rollapp so that non-rollapp gauges have ids below and between the rollapp gauges:
 	// distribution updates are sorted by gauge id, so a mixed vote then has a non-rollapp entry in front
 	// of a rollapp entry (UpdateTotalSharesWithDistribution must walk past it).
-	for i, id := range c16RollappIDs {
+	for i, id := range c16RollappIDs[:c16NBase] {
 		bg, err := f.App.IncentivesKeeper.CreateAssetGauge(f.Ctx, true, h.creator, sdk.Coins{},
 			lockuptypes.QueryCondition{LockQueryType: lockuptypes.ByDuration, Denom: h.bond, Duration: time.Hour}, f.Time, 1)
 		if err != nil {
 			t.Fatalf("base asset gauge: %v", err)
 		}
 		h.baseG = append(h.baseG, bg)
-		alias := []string{"verifa", "verifb"}[i]
-		apptesting.FundForAliasRegistration(f.App, f.Ctx, alias, apptesting.Alice)
-		msg := &rollapptypes.MsgCreateRollapp{
-			Creator: apptesting.Alice, RollappId: id, InitialSequencer: "*",
-			MinSequencerBond: rollapptypes.DefaultMinSequencerBondGlobalCoin,
-			Alias:            alias, VmType: rollapptypes.Rollapp_EVM,
-			GenesisInfo: &rollapptypes.GenesisInfo{
-				Bech32Prefix: []string{"vfa", "vfb"}[i], GenesisChecksum: "1234567890abcdefg", InitialSupply: math.NewInt(1000),
-				NativeDenom: rollapptypes.DenomMetadata{Display: "DEN", Base: "aden", Exponent: 18},
-			},
-			Metadata: &rollapptypes.RollappMetadata{Website: "https://dymension.xyz", Description: "d", LogoUrl: "https://dymension.xyz/logo.png", Telegram: "https://t.me/rolly", X: "https://x.dymension.xyz"},
-		}
-		if _, err := f.Deliver(msg); err != nil {
+		if _, err := f.Deliver(h.createRollappMsg(i)); err != nil {
 			t.Fatalf("create rollapp: %v", err)
 		}
 		e, err := f.App.SponsorshipKeeper.GetEndorsement(f.Ctx, id)
 		if err != nil {
 			t.Fatalf("endorsement of %s: %v", id, err)
 		}
-		h.raGauge = append(h.raGauge, e.RollappGaugeId)
+		h.baseRa = append(h.baseRa, e.RollappGaugeId)
 	}
 	// re-base the epoch infos at the current block time
 	for _, e := range f.App.EpochsKeeper.AllEpochInfos(f.Ctx) {
@@ -210,7 +216,78 @@ func newC16(t *testing.T, r *Run) *c16 {
 		}
 	}
 	h.base, h.bh, h.bt = f.Ctx, f.Height, f.Time
+	h.installHookRecorder()
 	return h
+}
+
+// c16RecHooks wraps the application's staking hooks (all of them still run, unchanged) and records, while
+// h.recording is set, every AfterDelegationModified / BeforeDelegationRemoved x/staking fires for one of
+// the actors, together with the voting power the sponsorship hook computes at that moment
+// (TokensFromShares of the stored delegation).  Used for validator slashes with an earlier infraction
+// height: SlashRedelegation -> Unbond fires hooks for the redelegations' destination validators.
+type c16RecHooks struct {
+	stakingtypes.StakingHooks
+	h *c16
+}
+
+func (w c16RecHooks) actorIdx(del sdk.AccAddress) int {
+	for i, a := range w.h.actors {
+		if a.Equals(del) {
+			return i
+		}
+	}
+	return -1
+}
+
+func (w c16RecHooks) AfterDelegationModified(ctx context.Context, del sdk.AccAddress, val sdk.ValAddress) error {
+	if a := w.actorIdx(del); w.h.recording && a >= 0 {
+		vp := "x"
+		sk := w.h.f.App.StakingKeeper
+		if v, err := sk.GetValidator(ctx, val); err == nil {
+			if d, err := sk.GetDelegation(ctx, del, val); err == nil {
+				vp = v.TokensFromShares(d.Shares).TruncateInt().String()
+			}
+		}
+		w.h.hookLog = append(w.h.hookLog, c16HookCall{a: a, v: w.h.valIdx(val), vp: vp})
+	}
+	return w.StakingHooks.AfterDelegationModified(ctx, del, val)
+}
+
+func (w c16RecHooks) BeforeDelegationRemoved(ctx context.Context, del sdk.AccAddress, val sdk.ValAddress) error {
+	if a := w.actorIdx(del); w.h.recording && a >= 0 {
+		w.h.hookLog = append(w.h.hookLog, c16HookCall{a: a, v: w.h.valIdx(val), remove: true, vp: "x"})
+	}
+	return w.StakingHooks.BeforeDelegationRemoved(ctx, del, val)
+}
+
+// installHookRecorder replaces the (unexported, set-once) hooks field of the app's staking keeper by the
+// recording wrapper around the hooks the application installed.
+func (h *c16) installHookRecorder() {
+	fv := reflect.ValueOf(h.f.App.StakingKeeper).Elem().FieldByName("hooks")
+	if !fv.IsValid() {
+		h.f.T.Fatal("staking keeper has no hooks field")
+	}
+	p := (*stakingtypes.StakingHooks)(unsafe.Pointer(fv.UnsafeAddr()))
+	if *p == nil {
+		h.f.T.Fatal("staking hooks not set")
+	}
+	*p = c16RecHooks{StakingHooks: *p, h: h}
+}
+
+// createRollappMsg: the real MsgCreateRollapp of rollapp index i (funds the alias registration first)
+func (h *c16) createRollappMsg(i int) *rollapptypes.MsgCreateRollapp {
+	alias := []string{"verifa", "verifb", "verifc"}[i]
+	apptesting.FundForAliasRegistration(h.f.App, h.f.Ctx, alias, apptesting.Alice)
+	return &rollapptypes.MsgCreateRollapp{
+		Creator: apptesting.Alice, RollappId: c16RollappIDs[i], InitialSequencer: "*",
+		MinSequencerBond: rollapptypes.DefaultMinSequencerBondGlobalCoin,
+		Alias:            alias, VmType: rollapptypes.Rollapp_EVM,
+		GenesisInfo: &rollapptypes.GenesisInfo{
+			Bech32Prefix: []string{"vfa", "vfb", "vfc"}[i], GenesisChecksum: "1234567890abcdefg", InitialSupply: math.NewInt(1000),
+			NativeDenom: rollapptypes.DenomMetadata{Display: "DEN", Base: "aden", Exponent: 18},
+		},
+		Metadata: &rollapptypes.RollappMetadata{Website: "https://dymension.xyz", Description: "d", LogoUrl: "https://dymension.xyz/logo.png", Telegram: "https://t.me/rolly", X: "https://x.dymension.xyz"},
+	}
 }
 
 // ---- block handling on the trace's branch context ------------------------------------------------
@@ -369,8 +446,8 @@ func (h *c16) state() string {
 			bs = append(bs, fmt.Sprintf("a%d", a))
 		}
 	}
-	for i, id := range c16RollappIDs {
-		e, err := k.GetEndorsement(ctx, id)
+	for i := range h.raGauge {
+		e, err := k.GetEndorsement(ctx, c16RollappIDs[i])
 		if err != nil {
 			h.f.T.Fatalf("endorsement: %v", err)
 		}
@@ -446,6 +523,8 @@ func (h *c16) runHandler(ctx sdk.Context, msg sdk.Msg) (err error) {
 			err = &PanicError{Val: e}
 		}
 	}()
+	g0 := ctx.GasMeter().GasConsumed()
+	defer func() { noteGas(ctx.GasMeter().GasConsumed() - g0) }() // C12: gas of the message, failed or not
 	_, err = h.f.App.MsgServiceRouter().Handler(msg)(ctx, msg)
 	return err
 }
@@ -589,12 +668,17 @@ func (h *c16) exec(line string) (string, string) {
 				f.T.Fatalf("hdr bgauge: %q", line)
 			}
 		case "rollapp":
+			// a rollapp of the base state (created there by the real MsgCreateRollapp -> hook), declared in index order
 			r := c16Idx(arg(2))
-			if r < 0 || r >= len(h.raGauge) || fmt.Sprint(h.raGauge[r]) != arg(3) {
+			if r < 0 || r >= len(h.baseRa) || r != len(h.raGauge) || fmt.Sprint(h.baseRa[r]) != arg(3) {
 				f.T.Fatalf("hdr rollapp: %q", line)
 			}
+			h.raGauge = append(h.raGauge, h.baseRa[r])
 		case "egauge":
 			r := c16Idx(arg(3))
+			if r < 0 || r >= len(h.raGauge) {
+				f.T.Fatalf("hdr egauge: undeclared rollapp (line %q)", line)
+			}
 			n, _ := strconv.ParseUint(arg(6), 10, 64)
 			coins := sdk.NewCoins(sdk.NewCoin(c16Reward, c16Int(arg(5))))
 			id, err := f.App.IncentivesKeeper.CreateEndorsementGauge(f.Ctx, arg(4) == "1", h.creator, coins,
@@ -607,7 +691,8 @@ func (h *c16) exec(line string) (string, string) {
 		default:
 			return line, "bad-op"
 		}
-		return line, "ok"
+		h.monitorSolvency("create-gauge")
+		return line, "ok " + h.state()
 	}
 	h.lines = append(h.lines, line)
 	h.curDel = -1
@@ -695,15 +780,30 @@ func (h *c16) exec(line string) (string, string) {
 		if err != nil {
 			return line, "bad-op"
 		}
+		// optional third argument: the infraction lies that many blocks back — x/staking then also slashes
+		// the unbonding delegations and redelegations that started at or after that height, and
+		// SlashRedelegation -> Unbond fires AfterDelegationModified / BeforeDelegationRemoved for the
+		// redelegation's delegator on the DESTINATION validator
+		back, _ := strconv.ParseInt(arg(3), 10, 64)
+		if back < 0 {
+			return line, "bad-op"
+		}
 		pre := h.table(f.Ctx)
+		wasSlashed := h.slashed
+		h.hookLog, h.recording = nil, true
 		err = f.Try(func(ctx sdk.Context) error {
 			val, err := f.App.StakingKeeper.GetValidator(ctx, h.vals[v].val)
 			if err != nil {
 				return err
 			}
-			_, err = f.App.StakingKeeper.Slash(ctx, h.vals[v].cons, ctx.BlockHeight(), val.ConsensusPower(f.App.StakingKeeper.PowerReduction(ctx)), factor)
+			inf := ctx.BlockHeight() - back
+			if inf < 0 {
+				inf = 0
+			}
+			_, err = f.App.StakingKeeper.Slash(ctx, h.vals[v].cons, inf, val.ConsensusPower(f.App.StakingKeeper.PowerReduction(ctx)), factor)
 			return err
 		})
+		h.recording = false
 		if err != nil {
 			// e.g. the validator is no longer bonded (x/staking panics): nothing happened
 			cls = "stk-fail"
@@ -712,6 +812,9 @@ func (h *c16) exec(line string) (string, string) {
 		}
 		post := h.table(f.Ctx)
 		var fs []string
+		for _, hc := range h.hookLog {
+			fs = append(fs, fmt.Sprintf("HA a%d v%d %s", hc.a, hc.v, hc.vp))
+		}
 		for x := 0; x < c16NActors; x++ {
 			for w := 0; w < c16NVals; w++ {
 				if pre[x][w] != post[x][w] {
@@ -719,9 +822,80 @@ func (h *c16) exec(line string) (string, string) {
 				}
 			}
 		}
+		if back > 0 {
+			h.r.Hit("slash-earlier-infraction-height")
+		}
+		if len(h.hookLog) > 0 {
+			h.r.Hit("slash-redelegation-fires-hook")
+			// monitor: for every (voter, validator) whose hook fired during the slash, the per-validator
+			// record is the delegation's bonded power after the slash
+			for _, hc := range h.hookLog {
+				if _, ok := h.vote(hc.a); !ok {
+					continue
+				}
+				h.r.Hit("slash-redelegation-hook-of-voter")
+				rec, err := f.App.SponsorshipKeeper.GetDelegatorValidatorPower(f.Ctx, h.actors[hc.a], h.vals[hc.v].val)
+				if err != nil {
+					rec = math.ZeroInt()
+				}
+				if sp, _ := h.svp(f.Ctx, hc.a, hc.v); !sp.Equal(rec) {
+					q := "slash-redelegation"
+					if wasSlashed {
+						q += "-after-slash"
+					}
+					h.r.Violate("C16/power_tracks_staking/hooked-record-ne-bonded/"+q,
+						fmt.Sprintf("after `%s`: hook fired for a%d/v%d during the slash; per-validator record %s, bonded %s", line, hc.a, hc.v, rec, sp), h.lines...)
+				}
+			}
+		}
 		h.slashed = true
 		cls = "ok"
 		full += " :: " + strings.Join(fs, " ")
+	case "addrollapp":
+		// a rollapp created mid-trace: real MsgCreateRollapp -> x/streamer RollappCreated hook ->
+		// CreateRollappGauge + SaveEndorsement
+		i := c16Idx(arg(1))
+		if i < 0 || i >= len(c16RollappIDs) {
+			return line, "bad-op"
+		}
+		_, err := f.Deliver(h.createRollappMsg(i))
+		switch {
+		case err == nil:
+			cls = "ok"
+			e, gerr := f.App.SponsorshipKeeper.GetEndorsement(f.Ctx, c16RollappIDs[i])
+			if gerr != nil || i != len(h.raGauge) {
+				f.T.Fatalf("addrollapp r%d: endorsement %v, declared %d", i, gerr, len(h.raGauge))
+			}
+			if !e.TotalShares.IsZero() || !e.EpochShares.IsZero() {
+				h.r.Violate("C16/endorsement_shares/new-endorsement-not-empty", fmt.Sprintf("r%d created with shares %s/%s", i, e.TotalShares, e.EpochShares), h.lines...)
+			}
+			h.raGauge = append(h.raGauge, e.RollappGaugeId)
+			h.r.Hit("rollapp-created-mid-trace")
+		case errors.Is(err, rollapptypes.ErrRollappExists):
+			cls = "rollapp-exists"
+			h.r.Hit("rollapp-create-existing")
+		default:
+			cls = c16Class(err)
+		}
+	case "setparams":
+		// x/sponsorship MsgUpdateParams signed by the module's authority (gov)
+		np := sponstypes.Params{MinAllocationWeight: c16Int(arg(1)), MinVotingPower: c16Int(arg(2))}
+		_, err := f.Deliver(&sponstypes.MsgUpdateParams{Authority: authtypes.NewModuleAddress(govtypes.ModuleName).String(), NewParams: np})
+		switch {
+		case err == nil:
+			cls = "ok"
+			if np.MinVotingPower.GT(h.minVP) {
+				h.r.Hit("params-min-voting-power-raised")
+			} else if np.MinVotingPower.LT(h.minVP) {
+				h.r.Hit("params-min-voting-power-lowered")
+			}
+			h.minAl, h.minVP = np.MinAllocationWeight, np.MinVotingPower
+		case errors.Is(err, sponstypes.ErrInvalidParams):
+			cls = "bad-params"
+			h.r.Hit("params-invalid")
+		default:
+			cls = c16Class(err)
+		}
 	case "begin":
 		secs, _ := strconv.ParseInt(arg(1), 10, 64)
 		before := map[string]int64{}
@@ -785,12 +959,15 @@ func (h *c16) exec(line string) (string, string) {
 	}
 	h.kinds = append(h.kinds, kind+"/"+cls)
 	h.monitorState(kind, cls)
+	h.monitorSolvency(c16OpClass(kind))
 	return full, cls + extra + " " + h.state()
 }
 
 func (h *c16) resetTrace() {
 	h.kinds, h.changed, h.slashed, h.recBad, h.curDel, h.negs = nil, false, false, false, -1, ""
-	h.assetG, h.nonPerp, h.eG, h.eGr = nil, 0, nil, map[uint64]int{}
+	h.assetG, h.nonPerp, h.eG, h.eGr, h.raGauge = nil, 0, nil, map[uint64]int{}, nil
+	h.minAt, h.lastVote, h.overpaid, h.solvBad, h.hookLog = map[int]math.Int{}, map[int]string{}, false, "", nil
+	h.finishedAt, h.stale = map[uint64]int64{}, false
 	h.unb = map[[2]int][]c16Unb{}
 	h.gDisc, h.vpDisc, h.pDisc, h.lowKept, h.invBrk = map[uint64]string{}, "0", map[int]string{}, map[int]bool{}, map[string]bool{}
 	h.sDisc = map[int]string{}
@@ -897,8 +1074,8 @@ func (h *c16) monitorState(kind, cls string) {
 	// endorsement shares: TotalShares of a rollapp's endorsement = Σ over the votes of their power on the
 	// rollapp gauge (what the claim divides by, once snapshotted into EpochShares)
 	ns := map[int]string{}
-	for i, id := range c16RollappIDs {
-		e, err := f.App.SponsorshipKeeper.GetEndorsement(f.Ctx, id)
+	for i := range h.raGauge {
+		e, err := f.App.SponsorshipKeeper.GetEndorsement(f.Ctx, c16RollappIDs[i])
 		if err != nil {
 			continue
 		}
@@ -954,7 +1131,25 @@ func (h *c16) monitorState(kind, cls string) {
 					fmt.Sprintf("after `%s`: a%d vote power %s, bonded delegations %s, per-validator records sum %s%s", kind, a, v.VotingPower, st, rec, bad), h.lines...)
 			}
 		}
-		if st.LT(h.minVP) {
+		// the minimum the property speaks of is the one in force when the vote last changed: MsgUpdateParams
+		// stores the new parameters without revisiting the votes, so a vote cast under a lower minimum stays
+		// (the voter's power did not fall) — counted, not reported
+		vr := v.String()
+		if h.lastVote[a] != vr {
+			h.minAt[a] = h.minVP
+		}
+		minA, ok := h.minAt[a]
+		if !ok {
+			minA = h.minVP
+		}
+		if !st.LT(minA) && st.LT(h.minVP) {
+			h.r.Hit("vote-below-raised-minimum-kept")
+		}
+		if v.VotingPower.LT(minA) {
+			h.r.Violate("C16/min_power_recorded/recorded-power-below-minimum-at-last-change/"+oc,
+				fmt.Sprintf("after `%s`: a%d recorded power %s < %s, the minimum in force when the vote last changed", kind, a, v.VotingPower, minA), h.lines...)
+		}
+		if st.LT(minA) {
 			nl[a] = true
 			if !h.lowKept[a] {
 				q := oc
@@ -962,11 +1157,19 @@ func (h *c16) monitorState(kind, cls string) {
 					q += "-after-slash"
 				}
 				h.r.Violate("C16/below_min_prunes_vote/vote-kept/"+q,
-					fmt.Sprintf("after `%s`: a%d has bonded power %s < minimum %s and still has a vote (recorded power %s)", kind, a, st, h.minVP, v.VotingPower), h.lines...)
+					fmt.Sprintf("after `%s`: a%d has bonded power %s < minimum %s and still has a vote (recorded power %s)", kind, a, st, minA, v.VotingPower), h.lines...)
 			}
 		}
 	}
 	h.pDisc, h.lowKept = np, nl
+	for a := range h.actors {
+		if v, ok := votes[a]; ok {
+			h.lastVote[a] = v.String()
+		} else {
+			delete(h.lastVote, a)
+			delete(h.minAt, a)
+		}
+	}
 	// total of the per-validator records = total of the distribution (part of sponsorship/general)
 	recTotal := math.ZeroInt()
 	for a := range h.actors {
@@ -1031,6 +1234,49 @@ func (h *c16) monitorState(kind, cls string) {
 	}
 }
 
+type c16HookCall struct {
+	a, v   int
+	remove bool
+	vp     string // the voting power AfterDelegationModified computes ("x" for BeforeDelegationRemoved)
+}
+
+// monitorSolvency (C15/C16 boundary, model independent): the x/incentives module account holds, per denom,
+// at least the undistributed remainder (Coins − DistributedCoins, floored at 0 gauge by gauge) of ALL its
+// unfinished gauges.  DistributeEndorsementRewards has no `rewards ≤ Coins − DistributedCoins` guard, so an
+// over-claim (finding F7) is paid out of the pooled account, i.e. out of the coins that back other gauges.
+func (h *c16) monitorSolvency(oc string) {
+	f := h.f
+	need := sdk.NewCoins()
+	for _, g := range f.App.IncentivesKeeper.GetNotFinishedGauges(f.Ctx) {
+		for _, c := range g.Coins {
+			if rem := c.Amount.Sub(g.DistributedCoins.AmountOf(c.Denom)); rem.IsPositive() {
+				need = need.Add(sdk.NewCoin(c.Denom, rem))
+			}
+		}
+	}
+	have := f.App.BankKeeper.GetAllBalances(f.Ctx, f.App.AccountKeeper.GetModuleAddress(incentivestypes.ModuleName))
+	var def []string
+	for _, c := range need {
+		if d := c.Amount.Sub(have.AmountOf(c.Denom)); d.IsPositive() {
+			def = append(def, d.String()+c.Denom)
+		}
+	}
+	bad := strings.Join(def, ",")
+	if bad != "" && bad != h.solvBad {
+		detail := fmt.Sprintf("after `%s`: x/incentives module account holds %s, its unfinished gauges still owe %s (deficit %s)", oc, have, need, bad)
+		if h.overpaid {
+			// consequence of the over-claim: same root cause as C16/claims_le_allotment/gauge-overpaid/single-claims
+			h.r.Violate("C16/claims_le_allotment/module-balance-below-unfinished-gauges/after-overpaid-claim", detail, h.lines...)
+		} else if h.stale {
+			// consequence of C16/claims_le_allotment/gauge-overpaid/finished-gauge-stale-epoch-rewards
+			h.r.Violate("C16/claims_le_allotment/module-balance-below-unfinished-gauges/after-finished-gauge-claim", detail, h.lines...)
+		} else {
+			h.r.Violate("C16/module_solvency/incentives-balance-below-unfinished-gauges/"+oc, detail, h.lines...)
+		}
+	}
+	h.solvBad = bad
+}
+
 func (h *c16) distrEpoch() int64 {
 	return h.f.App.EpochsKeeper.GetEpochInfo(h.f.Ctx, h.f.App.IncentivesKeeper.GetParams(h.f.Ctx).DistrEpochIdentifier).CurrentEpoch
 }
@@ -1042,6 +1288,11 @@ func (h *c16) monitorEpoch(ended []string) {
 		h.distrEnded = true
 		h.claimed, h.allot, h.claimBy, h.votedIn, h.rep = map[uint64]math.Int{}, map[uint64]math.Int{}, map[int]int{}, map[int]bool{}, map[uint64]bool{}
 		h.r.Hit("epoch-distribution-identifier")
+		for _, g := range h.eG {
+			if _, ok := h.finishedAt[g]; !ok && h.gaugeStatus(g) == "f" {
+				h.finishedAt[g] = n // its last EpochRewards were computed at the end that finished it
+			}
+		}
 	} else if len(ended) > 0 {
 		h.r.Hit("epoch-other-identifier-only")
 	}
@@ -1056,10 +1307,18 @@ func (h *c16) monitorClaim(a int, gid uint64, paid math.Int) {
 	if err != nil || g.GetEndorsement() == nil {
 		return
 	}
+	staleNow := false
 	if _, ok := h.allot[gid]; !ok {
 		// EpochRewards only changes at the end of a distribution epoch: this is the epoch's allotment
 		h.allot[gid] = g.GetEndorsement().EpochRewards.AmountOf(c16Reward)
 		h.claimed[gid] = math.ZeroInt()
+	}
+	if fa, ok := h.finishedAt[gid]; ok && fa < h.weekNo {
+		// the gauge was finished before the epoch end that opened this epoch: x/incentives did not update it
+		// there (only active gauges are), it was given NO allotment for this epoch — its EpochRewards field
+		// still shows the last epoch's value
+		h.allot[gid] = math.ZeroInt()
+		staleNow = true
 	}
 	h.claimBy[a]++
 	if h.claimBy[a] > 1 {
@@ -1076,6 +1335,13 @@ func (h *c16) monitorClaim(a int, gid uint64, paid math.Int) {
 		q := "single-claims"
 		if h.rep[gid] {
 			q = "repeated-claims"
+		}
+		if staleNow {
+			q = "finished-gauge-stale-epoch-rewards"
+			h.stale = true
+			h.r.Hit("claim-from-finished-gauge-in-later-epoch")
+		} else {
+			h.overpaid = true
 		}
 		h.r.Violate("C16/claims_le_allotment/gauge-overpaid/"+q,
 			fmt.Sprintf("gauge %d paid %s in distribution epoch %d, allotment %s", gid, h.claimed[gid], h.weekNo, h.allot[gid]), h.lines...)
